@@ -200,3 +200,13 @@ func init() {
 		return -1
 	}
 }
+
+func init() {
+	// FsDb.PutConfig writes a YAML rendering of a configuration that was added
+	// through the programming interface; the text is not read back by anything
+	// the properties speak about (the stub's own ParseConfig would not read it
+	// either), so it is an opaque, not-a-configuration file.
+	stubs["github.com/ghodss/yaml.Marshal"] = func(fr *frame, args []value) value {
+		return tuple{bytesToValues([]byte("# configuration added through the API (yaml.Marshal is not modelled)\n")), iface{}}
+	}
+}
